@@ -305,6 +305,43 @@ def wrapper_contract(chk, fe, name):
         raise AnalysisError(f"{FE}:{name}: unrecognised wrapper around the compiled generator: returns {str(v)[:120]}")
 
 
+def _blocked_batch(ev, out, seed, d1, d2, generator_of, methods):
+    """The batch generated block by block into one array:
+
+        pts = np.empty((d1, d2));  for lo in range(seed, seed + d1, B): hi = min(lo + B - 1, seed + d1 - 1); pts[lo - seed : hi - seed + 1] = BATCH(lo, hi, d2)
+
+    -> None when the code is not of this shape at all; otherwise whether the windows [lo, hi] tile the seeds seed .. seed + d1 - 1 (the loop's
+    exclusive upper bound is seed + d1: with the inclusive last seed as the bound the final one-seed block is never generated) and every
+    block lands on its own rows."""
+    init = out.as_atom()[3].as_atom()
+    if not (init and init[0] == "call" and call_name(init) in ("numpy.empty", "numpy.zeros") and init[2]):
+        return None
+    shape = seq_items(init[2][0])
+    stores = [e for e in ev.events if e.kind == "store" and e.target.as_atom() and e.target.as_atom()[0] == "sub" and e.target.as_atom()[1].key() == out.key()]
+    if len(stores) != 1 or len(stores[0].loops) != 1 or stores[0].loops[0].kind != "range":
+        return None
+    st, lp = stores[0], stores[0].loops[0]
+    va = st.value.as_atom()
+    sl = st.target.as_atom()[2]
+    if not (va and va[0] == "call" and len(va[2]) == 3 and len(sl) == 1 and sl[0].as_atom() and sl[0].as_atom()[0] == "slice"):
+        return None
+    if not all(generator_of(va[1], k) and generator_of(va[1], k).endswith(f"quasirandom_{k}_batch") for k in methods):
+        return None
+    i = lp.index
+    lo_w, hi_w, dim = va[2]
+    last = seed + d1 - 1
+    B = lp.step
+    ok = bool(shape and len(shape) == 2 and shape[0].key() == d1.key() and shape[1].key() == d2.key())
+    ok = ok and lp.lo is not None and lp.lo.key() == seed.key() and lp.hi is not None and (lp.hi - seed - d1).is_zero() \
+        and B is not None and B.const_value() is not None and B.const_value() > 0
+    ok = ok and lo_w.key() == i.key() and dim.key() == d2.key()
+    hk = hi_w.key()
+    ok = ok and hk in (f"min({i + B - 1}, {last})", f"min({last}, {i + B - 1})")
+    s0, s1 = sl[0].as_atom()[1], sl[0].as_atom()[2]
+    ok = ok and (s0 - (i - seed)).is_zero() and (s1 - (hi_w - seed + 1)).is_zero() if ok else False
+    return bool(ok)
+
+
 def r20_5(chk, fe):
     from .generic import inline_single_return_hook, specialise
     # how a method name is turned into a generator: two registries (dict literals) or a chain of comparisons; either way the question
@@ -406,6 +443,11 @@ def r20_5(chk, fe):
             okb = len(a) == 3 and a[0].key() == seed.key() and (a[1] - a[0] + 1) == d1 and a[2].key() == d2.key()
         elif ba and ba[0] == "ite":
             okb = False        # the result for a given d2 depends on something else than (seed, d1, d2): reported with the condition
+        elif ba and ba[0] == "obj":
+            blk = _blocked_batch(ev, b, seed, d1, d2, generator_of, methods)
+            if blk is None:
+                raise AnalysisError(f"{FE}:quasirandom: unrecognised construction of the batch result: {str(b)[:120]}")
+            okb = blk
         elif not (ba and ba[0] == "call"):
             raise AnalysisError(f"{FE}:quasirandom: unrecognised construction of the batch result: {str(b)[:120]}")
         extra = [c for c, pol in e.guards if c.key() != ck]
